@@ -74,6 +74,11 @@ def gen_history(seed, universe, cfg):
             acts = [["trace", rid, cid, r["target"], r["func"], r["sig"]], ["print", rid, debug, tag, "raw"]]
         else:
             acts = [["trace", rid, cid, r["target"], r["func"], r["sig"]], ["expand", rid], ["simplify", rid], ["print", rid, debug, tag]]
+        if fault_ok and not raw and rq.random() < 0.15:
+            # a legal option of Expr.rewrite that nothing in the repository uses: top-down rewriting
+            acts[1] = ["expand", rid, "top-down"]
+            if rq.random() < 0.5:
+                acts[2] = ["simplify", rid, "top-down"]
         if fault_ok and fl.random() < p_fault:
             i = fl.randrange(len(acts))
             acts[i] = ["fault", fl.randint(1, fault_span), acts[i]]
@@ -389,11 +394,19 @@ class Executor:
         if op == "expand":
             if req["stage"] != "traced":
                 return
-            self.guarded(req, "expanded", lambda: g.rewrite(tm), fault)
+            if len(a) > 2 and a[2] == "top-down":
+                self.bump(self.probes, "rewrite_with_deep_first_false")
+                req["topdown"] = True
+                self.guarded(req, "expanded", lambda: g.rewrite(tm, deep_first=False), fault)
+            else:
+                self.guarded(req, "expanded", lambda: g.rewrite(tm), fault)
         elif op == "simplify":
             if req["stage"] != "expanded":
                 return
-            self.guarded(req, "simplified", lambda: g.rewrite(fa.rewrite), fault)
+            if len(a) > 2 and a[2] == "top-down":
+                self.guarded(req, "simplified", lambda: g.rewrite(fa.rewrite, deep_first=False), fault)
+            else:
+                self.guarded(req, "simplified", lambda: g.rewrite(fa.rewrite), fault)
         elif op == "print":
             raw = len(a) > 4 and a[4] == "raw"
             if req["stage"] not in (("traced", "printed_raw") if raw else ("simplified", "printed")):
@@ -420,6 +433,10 @@ class Executor:
                            rep=req["prints"], pos=self.pos, sha=hashlib.sha256(text.encode()).hexdigest(), env=self.env.active,
                            after_abort=self.last_aborted, tmp_counter=tmp_before, target=req["target"], debug=debug)
                 self.last_aborted = False
+                if req.get("topdown"):
+                    # rewritten top-down: part of the history of everything that follows, but its own text is a
+                    # different (legal, never used) pipeline whose program-dimension quirks are not judged
+                    rec["tag"] = "history-only"
                 if req["func"].startswith("gen:"):
                     rec["req"] = dict(target=req["target"], func=req["func"], sig=req["sig"], params=req.get("params"))
                 self.log.ev("text", rec["key"], rec["sha"][:16])
